@@ -8,41 +8,42 @@ import registry  # noqa
 
 # property id -> (what the solver decides, what is outside the claim)
 NOTES = {
-    "C01": ("per-entity table dispatch kernels (iter_rtype/count exact on kind AND type id, registration order)",
-            "type-wide tables and the schedule_* dispatch systems until engine K2 covers them; tables edited mid-dispatch; "
-            "sizes beyond the bounds"),
-    "C03": ("all four *AccessTracker kernels: start(r) exposes the oldest pending entry of r (data entity / source / "
-            "reaction type / system) and removes exactly that entry",
-            "which postponed command is paired with which entry by the recursive runner; reader methods (need a World)"),
-    "C04": ("tracker flag discipline (prepare never sets, start sets, end clears), take-once of system-event payloads",
-            "cleanup-before-deferred ordering in run_initialized_system and probes at tree positions (need a World / the runner)"),
-    "C05": ("reader-counter kernel (done exactly at the n-th decrement, saturating), count() = number of queued readers per entity table",
-            "that every scheduled reader is eventually run-or-aborted exactly once (runner); schedule_* initialisation of the counter until K2"),
-    "C06": ("EntityReactors::remove completeness/locality/idempotence; token construction lists exactly the bundle's triggers; "
-            "ReactorType::get_entity routing key",
-            "type-wide revoke_* functions and revoke_reactor routing until K2; immediacy inside a tree follows from per-command flush (environment)"),
-    "C07": ("mode -> handle kind; reference-count conservation over table entries, table drop, in-flight despawn reactions",
-            "the runner's garbage-collection points; ReactCache tables as holders until K2"),
-    "C10": ("real Arc + Drop signal: receivable iff all clones dropped, exactly once, for every drop order over 2 entities",
-            "threads (Kani has no concurrency; crossbeam is a stub); garbage_collect_entities on a World; hierarchy despawn"),
-    "C11": ("tracker quiescence (pending count = prepared - started, flag clear after end), buffer remove()/append() strand nothing, "
-            "callback present again after insert",
-            "the runner's root-level discard/reset and every abort path (recursive runner)"),
-    "C12": ("per-system FIFO of all four trackers as an inductive step from any pending list; postponement buffer FIFO",
+    "C01": ("the five schedule_* dispatch functions from directly written tables: exactly the target's entity-scoped registrations of that kind+type, then the type-wide ones, in order, right variant/ids, nothing else, nothing when nothing matches; revoke kernels never delete other registrations",
+            "registration through the deferred register_* systems; tables edited while a dispatch is in flight (runner); lists longer than 3"),
+    "C03": ("every tracker's start(r) exposes the oldest entry prepared for r; every reader answers iff reacting AND kind AND type match, with that event's payload / target / source; dispatch stores the event's own payload and target",
+            "which postponed command is paired with which pending entry by the recursive runner"),
+    "C04": ("readers answer Err when not reacting even while the data entity is alive; system-event payload taken once; end() clears the flag; run_initialized_system through RawCallbackSystem/CallbackSystem: body, cleanup, then deferred commands, for ordinary and exclusive systems and early Err returns",
+            "probes at arbitrary tree positions (runner)"),
+    "C05": ("reader counter = number of queued reactions; zero listeners: nothing queued, no data entity; counter kernel (done exactly at the n-th decrement, saturating)",
+            "the decrement paths through the runner (normal, postponed, aborted, discarded at root)"),
+    "C06": ("all ReactCache::revoke_* kernels (first entry of that reactor under that key in that list only; emptied key dropped, sibling lists never), stale despawn ids, EntityReactor::remove queues the reconstructed revoke, tokens list exactly the bundle's triggers; completeness for duplicate registrations FAILS = known finding F2",
+            "immediacy inside a tree follows from per-command flush (environment); revoke_reactor routing and EntityReactors::remove kernels exceeded the caps and were dropped"),
+    "C07": ("mode -> handle kind and exactly-once collection; reference count over clones in three drop orders; in-flight despawn reactions keep the reactor; dead-entity despawn registration releases the handle; revoke kernels never drop neighbours' handles",
+            "the runner's garbage-collection points; EntityReactors dropped with its entity"),
+    "C08": ("DespawnTracker::drop reports its entity once; register_despawn_reactor: dead entity stores nothing, live entity one handle + one tracker, an existing tracker is never replaced (no spurious report)",
+            "removal detection is Bevy's RemovedComponents + scheduler; schedule_removal_reactions / schedule_despawn_reactions exceeded the caps; histories between polls"),
+    "C10": ("real Arc + Drop signal: nothing receivable while a clone exists, exactly one message after the last drop (three drop orders, second entity's signal alive); clones of the despawner share the channel",
+            "threads (Kani has none; the channel is a stub); garbage_collect_entities on a world (exceeded the caps); hierarchies"),
+    "C11": ("tracker quiescence steps (pending = prepared - started, flag clear after end), postponement buffer strands nothing, callback present again after insert, dispatch leaves the cached reaction buffer empty",
+            "the runner's root-level discard/reset and every abort path"),
+    "C12": ("per-system FIFO of all four trackers as an inductive step from any pending list <= 4; postponement buffer FIFO",
             "nested replays by the recursive runner"),
-    "C16": ("tokens name each entity once (local-data cleanup once per entity); entity bundles name the added entity; iter_reactors lists all registrations",
-            "Reactor/EntityReactor add/remove/cleanup_reactor_data and EntityLocal (need a World) until K2"),
+    "C13": ("RawCallbackSystem / CallbackSystem: initialized exactly once, Local continues across runs, New -> Initialized never back; spawned / cached syscall systems keep their state per key; storage take/insert round trip",
+            "persistence across postponed and nested runs (runner)"),
+    "C14": ("React and ReactResInner accessors: reads and get_noreact queue nothing, get_mut exactly one trigger per call, set_if_neq stores + returns old + one trigger iff different; ReactCommands::insert queues try_insert + one trigger iff the entity exists at call time; the dispatch the triggers end in is decided under C01",
+            "what the queued trigger closures do when applied (unnameable closure types); an entity dying between queue and apply (design-phase observation F3)"),
+    "C16": ("cleanup_reactor_data removes local data iff no registration of that reactor remains on the entity; EntityReactor::remove queues one revoke + one cleanup per distinct entity; tokens name each entity once; entity bundles name the added entity",
+            "Reactor/EntityReactor::add and EntityLocal (need applied registration closures); multi-step histories"),
+    "C17": ("spawned_syscall, syscall(_with_validation), syscall_once, named_syscall: output returned, commands applied on return, state persists per key over up to three calls and is independent between keys, validation on first use only, missing or running spawned system => Err and nothing runs, self-despawning system still returns its output",
+            "nested / re-entrant calls and calls made from commands of other calls"),
+    "C18": ("dead-target behaviour, without panic, of: entity-event dispatch (the dead target's own listeners do not run), despawn registration (nothing stored, handle released), stale despawn-revoke ids, ReactCommands::insert on a dead id, spawned system that despawns itself",
+            "targets dying while commands for them are postponed or mid-dispatch (runner); revoke_reactor past a dead entity exceeded the caps"),
 }
 
 NOT_APPLICABLE = {
-    "C02": "carried by the recursive runner (syscommand_runner replay loop through Bevy's World and boxed FnMut callbacks): not symbolically executable with Kani/CBMC here (DESIGN.md section 1, P1-P3); no function-level obligation is a meaningful necessary condition by itself yet",
-    "C08": "removal/despawn detection is Bevy's RemovedComponents + scheduler (environment) plus World-dependent dispatch; not reachable without the K2 environment model",
-    "C09": "an ordering relation over all pairs of runs in a tree, produced by Bevy's per-command flush and the recursive replay logic; neither can be symbolically executed here (DESIGN.md section 7)",
-    "C13": "needs the system layer (RawCallbackSystem/run_with_cleanup on a World); pending engine K2",
-    "C14": "every accessor needs Commands/World; pending engine K2",
-    "C15": "the once-wrapper is a closure over World; pending engine K2 stage 2b",
-    "C17": "syscall family needs a World and boxed systems; pending engine K2",
-    "C18": "dead-target behaviour of World-dependent operations; pending engine K2",
+    "C02": "carried by the recursive runner (syscommand_runner take/run/reinsert + replay loop through Bevy's World, boxed FnMut callbacks and stored fn pointers): not symbolically executable with Kani/CBMC here (DESIGN.md section 1, P1-P3, P11); no function-level obligation is a meaningful necessary condition by itself",
+    "C09": "an ordering relation over all pairs of runs in a tree, produced by Bevy's per-command flush (environment) and the recursive replay logic; neither can be symbolically executed here (DESIGN.md section 7); the buffer FIFO ingredient is decided under C12",
+    "C15": "the once-wrapper is a closure over World that runs the system, despawns itself and revokes through world.react(), i.e. through flush and the recursive runner (DESIGN.md section 7)",
 }
 
 
@@ -72,14 +73,15 @@ def main():
             "level_claimed": {
                 "category": "model_checking",
                 "text": "Bounded symbolic model checking of the real functions: Kani compiles /repo's unmodified source to a "
-                        "CBMC goto program, inputs and pre-states are symbolic, each obligation is decided by SAT for ALL values "
-                        "within the stated bounds (unwinding assertions on). Decided: " + decided + ". A green result means "
+                        "CBMC goto program; pre-states have a concrete shape and symbolic contents, one query per shape; each "
+                        "obligation is decided by SAT for ALL contents within the stated bounds (unwinding assertions on). "
+                        "Decided: " + decided + ". A green result means "
                         "every listed obligation (a necessary condition of the property) holds within bounds, not that the "
                         "whole-tree property is verified.",
                 "design_ref": f"DESIGN.md section 4 ({pid})",
             },
             "level_note": "Outside the claim: " + outside + ". Trusted: Kani's MIR->goto translation, CBMC/CaDiCaL, the "
-                          "tracing/crossbeam stubs" + (", the envstub/bevy environment model (validated by conformance run + "
+                          "tracing/crossbeam/smallvec stubs, the address-based TypeId::{of,eq} stubs" + (", the envstub/bevy environment model (validated by conformance run + "
                           "public-API replay)" if "k2" in engines else "") + ".",
             "technique": "SAT-based bounded model checking (Kani 0.68 -> CBMC 6.11 + CaDiCaL) of the real Rust functions, "
                          "symbolic pre-state + one inductive step, counterexamples replayed natively",
